@@ -6,12 +6,18 @@
    match / no match and the end of the reported match - that the same operation tree gives with
    every shortcut off (O1 min-length soundness + O2 filter soundness + E5); the two first-term
    filters are sound at the operation level; a literal (flag q) program is the same tree with and
-   without optimisation.  Not proved: Operation::optimize (the UnambiguousRepeat rewrite and the
-   repeat simplifications), positional preconditions, the start-anchor fast path.  The
+   without optimisation.  The UnambiguousRepeat rewrite of Sequence::optimize: whenever no position at
+   which the repeated term matches can start a match of what follows, the sequence has exactly the
+   same results (as lists) with the backtracking fixed-length repeat and with the non-backtracking
+   one; and for a repeat of a single character or class followed by a literal or class, matching
+   case-sensitively, the compiler's own decision (no_ambiguity, through is_disjoint with its give-up
+   threshold and the first-character sets) implies that condition.  Not proved: that decision for
+   other followers and under flag i, the repeat simplifications, positional preconditions, the
+   start-anchor fast path.  The
    property is otherwise decided on every run by the four-way correspondence (code optimised /
    unoptimised through the hook, model optimised / unoptimised). *)
 From RX Require Import Base.Prelude Base.InvList Model.Case Model.Op Model.Engine Model.Matcher Model.Compiler
-     Model.Api Proofs.FilterFacts Proofs.LeafFacts Proofs.EngineFacts Proofs.ShortcutFacts.
+     Model.Api Proofs.FilterFacts Proofs.LeafFacts Proofs.EngineFacts Proofs.ShortcutFacts Proofs.FragmentSpec Proofs.FixedFacts Proofs.DisjointFacts Proofs.UnambFacts.
 
 Theorem C08_prefix_filter_sound_partial :
   forall input ci multi hb pre rest path j s,
@@ -53,8 +59,43 @@ Theorem C08_shortcuts_pure_class_first_partial :
                  (matches (mk_program_unopt pat o K ci multi lit hbk) input i s).
 Proof. exact shortcuts_pure_class_first. Qed.
 
+(* the UnambiguousRepeat rewrite, semantically: F is what follows the repeat, as a function from
+   positions to results; if it has no result from any position where the repeated term matches, the
+   backtracking repeat (greedy or reluctant) and the non-backtracking one feed it to the same effect *)
+Theorem C08_unambiguous_repeat_same_results_partial :
+  forall input ci multi hb K o' mn mx len,
+    simple input ci multi hb K o' -> (0 < len)%N -> (0 < mx)%N -> (mn <= mx)%N ->
+    (N.of_nat (length input) < umax)%N ->
+    (forall p, Rop input ci multi o' p = [] \/ Rop input ci multi o' p = [p + N.to_nat len]) ->
+    forall (A : Type) (F : nat -> list A),
+      (forall q, q <= length input -> hit (Rop input ci multi o') q -> F q = []) ->
+      forall (greedy : bool) p, p <= length input ->
+        flat_map F (Rop input ci multi (if greedy then OGFixed o' mn mx len else ORFixed o' mn mx len) p)
+        = flat_map F (Rop input ci multi (OUnamb o' mn mx) p).
+Proof. exact unamb_same_results. Qed.
+
+(* is_disjoint, give-up threshold included, never answers "disjoint" for sets that share a scalar value *)
+Theorem C08_is_disjoint_sound :
+  forall thr a b x, is_disjoint thr a b = true -> is_scalar x = true -> mem b x = true -> mem a x = false.
+Proof. exact is_disjoint_sound. Qed.
+
+(* the rewriting step itself for x{n,m}y-type sequences: the compiler's decision suffices *)
+Theorem C08_unambiguous_replacement_partial :
+  forall input multi (hb : bool) (K : nat),
+    (forall p ch, nth_error input p = Some ch -> is_scalar ch = true) ->
+    forall c mn mx nxt rest (greedy : bool) p,
+      single c -> leaf_follower nxt ->
+      no_ambiguity c nxt false (negb greedy) = true ->
+      (0 < mx)%N -> (mn <= mx)%N -> (N.of_nat (length input) < umax)%N -> p <= length input ->
+      Rop input false multi (OSeq ((if greedy then OGFixed c mn mx 1 else ORFixed c mn mx 1) :: nxt :: rest)) p
+      = Rop input false multi (OSeq (OUnamb c mn mx :: nxt :: rest)) p.
+Proof. intros input multi hb K Hs. exact (unambiguous_replacement input multi hb K Hs). Qed.
+
 Print Assumptions C08_prefix_filter_sound_partial.
 Print Assumptions C08_first_class_filter_sound_partial.
 Print Assumptions C08_literal_same_tree_partial.
 Print Assumptions C08_shortcuts_pure_literal_first_partial.
 Print Assumptions C08_shortcuts_pure_class_first_partial.
+Print Assumptions C08_unambiguous_repeat_same_results_partial.
+Print Assumptions C08_is_disjoint_sound.
+Print Assumptions C08_unambiguous_replacement_partial.
